@@ -416,7 +416,7 @@ func seedWitnesses(g *model.Gen, n *model.Node) {
 
 func TestC07(t *testing.T) {
 	h := hh.Start(t, "C07",
-		"cases = histories over a pool of 3-8 (thorough 4-14) generated calls (schema, data, mode, WithCtxValue sets incl. the i18n language key, WithIssueFormatter), executed in random order with interleaved actions: collect an earlier result (Collect per issue / CollectList / CollectMap / Sanitize*AndCollect), force GC (empties the pools), inject dirty recycled objects of every reachable shape into one or all of the seven pools, run a call whose user callback panics (deferred releases run mid-execution); i18n (en, es) installed as global formatter; non-trivial = a call executed after an earlier call that set context values / a formatter / produced issues, after a panicking call, or after a dirty injection; distinct = FNV-1a of the case JSON",
+		"cases = histories over a pool of 3-8 (thorough 4-14) generated calls (schema, data as Go value / zjson document / urlencoded body through zhttp, mode, WithCtxValue sets incl. the i18n language key, WithIssueFormatter), executed in random order with interleaved actions: collect an earlier result (Collect per issue / CollectList / CollectMap / Sanitize*AndCollect), force GC (empties the pools), inject dirty recycled objects of every reachable shape into one or all of the seven pools, run a call whose user callback panics (deferred releases run mid-execution); i18n (en, es) installed as global formatter; non-trivial = a call executed after an earlier call that set context values / a formatter / produced issues, after a panicking call, or after a dirty injection; distinct = FNV-1a of the case JSON",
 		"reference = the same call on freshly cleared pools (computed first); after every call the complete observable result - every issue field (code, path, type, message, params deep, value, error text), $first / key set, destination, and the ctx.Get values seen by its callbacks - must equal the reference",
 		"dirty objects are limited to states reachable through zog's own API (PathBuilder element 0 stays empty); collected issues are never inspected afterwards")
 	defer h.Finish()
